@@ -29,8 +29,12 @@ def _dirs(rng, nd, order):
 
 
 def _freqs(rng, nf):
-    kind = str(rng.choice(["log", "linear"]))
+    kind = str(rng.choice(["log", "linear", "log_rounded", "log_drifting"]))
     lo = float(rng.uniform(0.03, 0.06))
+    if kind == "log_rounded":
+        return np.round(lo * 1.1 ** np.arange(nf), 4)                        # nominal values as printed in model set-ups
+    if kind == "log_drifting":
+        return lo * np.cumprod(np.concatenate([[1.0], np.linspace(1.1, 1.104, max(nf - 1, 1))[:nf - 1]]))
     return (lo * 1.1 ** np.arange(nf)) if kind == "log" else np.linspace(lo, lo + 0.02 * nf, nf)
 
 
